@@ -271,6 +271,7 @@ def run(chk):
                     try:
                         it = env.interp()
                         it.join_on_top = True
+                        it.call_hooks = (cmp_kernel_hook(facts),)
                         st = State()
                         args, muts, names = [], [], ["a", "b"]
                         ci = 0
